@@ -88,6 +88,15 @@ CHECKS = {
              "replayed.  The text->arguments direction is an auxiliary enumeration, not a solver verdict (pyparsing / CrossHair limits).",
         note="Only the str(q) direction is claimed at solver level.  21 (class, option) pairs whose printed form loses the option are known findings.",
         ref="DESIGN.md section 3 C10"),
+    "C11": dict(
+        level="translation_validation", engine="equiv",
+        technique="graph equivalence (term identity / real relaxation / QF_BVFP miter) between the traced quantized layer and the traced stock Keras layer on q_i(w_i), "
+                  "with symbolic inputs and weights; linear-operator structure extracted from the real TF kernels",
+        text="For each (layer type, geometry, quantizer assignment) the quantized layer's call() and the stock layer's call() on the reported "
+             "quantizers applied to the same symbolic weights are traced into one hash-consed term store; equality for every input and "
+             "every weight value is proved by term identity (the expected outcome) or the miter, and differences are replayed.",
+        note="Layer classes that cannot be built or called under the pinned Keras 3 (QConv2DTranspose, recurrent layers) are outside the claim.",
+        ref="DESIGN.md section 3 C11"),
 }
 
 NOT_YET = "check not built yet in this revision (see DESIGN.md section 7 build order)"
